@@ -291,6 +291,12 @@ func (e *Engine) extend(g GKey, opt LiveOpt, keepLog bool) (ok bool, why string,
 		if n.Dead != "" && stopped == "" {
 			stopped = fmt.Sprintf("correct member n%d stopped during the timely schedule: %s", node, n.Dead)
 		}
+		for _, v := range obs.Viol {
+			// last clause of C05: a member that accepted the proposal of the view in which the block is committed commits it
+			if v.Clause == "commit-quorum-not-acted-upon" && stopped == "" {
+				stopped = "correct member does not commit although it accepted the proposal and holds a COMMIT quorum for it: " + v.Detail
+			}
+		}
 		for _, o := range obs.Outs {
 			if o.Info.Hdr.Height != 1 {
 				continue
